@@ -435,6 +435,19 @@ struct StringStream {
         constexpr SizeT size = sizeof(Char_T);
         Char_T         *str  = Storage();
 
+#ifdef QENTEM_VERIF
+        // Verification hook (off by default): exact-fit growth, so that a sanitizer's redzone borders Length().
+        setStorage(Memory::Allocate<Char_T>(new_capacity));
+        setCapacity(new_capacity);
+        Memory::Copy(Storage(), str, (Length() * size));
+
+        if (release) {
+            Memory::Deallocate(str);
+        }
+
+        return;
+#endif
+
         allocate(new_capacity * SizeT{4});
 
         Memory::Copy(Storage(), str, (Length() * size));
@@ -445,6 +458,13 @@ struct StringStream {
     }
 
     void allocate(SizeT size) {
+#ifdef QENTEM_VERIF
+        // Verification hook (off by default): no rounding up of the requested capacity.
+        setStorage(Memory::Allocate<Char_T>(size));
+        setCapacity(size);
+        return;
+#endif
+
         size = Memory::AlignSize(size);
 
         setStorage(Memory::Allocate<Char_T>(size));
